@@ -74,6 +74,18 @@ class NullRT:
         return []
 
 
+class RecRT(NullRT):
+    """Non-simulated runtime that records workload events in memory (reference runs)."""
+
+    name = "ref"
+
+    def __init__(self):
+        self.events = []
+
+    def event(self, *data):
+        self.events.append(("ref", data))
+
+
 class ChildRT:
     """Runtime of a lockstep child: every seam is a message to the controller."""
 
@@ -92,6 +104,7 @@ class ChildRT:
         self.budget = 0  # points this process may pass without asking the controller
         self.npoints = 0
         self.phash = 0  # rolling hash of the labels of the points passed silently
+        self.stop_kinds = cfg.get("stop_kinds", ("body",))  # always a scheduling point
 
     def now(self):
         return self._now
@@ -121,7 +134,7 @@ class ChildRT:
         if self.in_rt:
             return
         self.npoints += 1
-        if self.budget > 0:
+        if self.budget > 0 and kind not in self.stop_kinds:
             # inside a burst granted by the controller: no scheduling decision here
             self.budget -= 1
             self.phash = _crc32(repr((kind, label)).encode(), self.phash)
